@@ -44,7 +44,21 @@ func (c *Ctx) checkModeTables() {
 	r.Func(fk(marshal))
 	// bit -> letter from the array literal in MarshalText: stores of byte constants at constant indices
 	b2l := map[int64]rune{}
+	// (the rendering loop may sit in a helper of MarshalText, `m.modeLetters()`)
+	renderers := []*ssa.Function{marshal}
 	core.AllInstrs(marshal, func(in ssa.Instruction) {
+		if call, ok := in.(*ssa.Call); ok {
+			if h := call.Call.StaticCallee(); h != nil && h != marshal && core.InPkg(h, "server/store/types") && len(h.Blocks) > 0 {
+				renderers = append(renderers, h)
+			}
+		}
+	})
+	allRender := func(visit func(in ssa.Instruction)) {
+		for _, g := range renderers {
+			core.AllInstrs(g, visit)
+		}
+	}
+	allRender(func(in ssa.Instruction) {
 		st, ok := in.(*ssa.Store)
 		if !ok {
 			return
@@ -62,7 +76,7 @@ func (c *Ctx) checkModeTables() {
 	// or from a constant string indexed by the bit number: `const letters = "JRWPASDO"; letters[i]`
 	if len(b2l) < 8 {
 		b2l = map[int64]rune{}
-		core.AllInstrs(marshal, func(in ssa.Instruction) {
+		allRender(func(in ssa.Instruction) {
 			var sv ssa.Value
 			switch x := in.(type) {
 			case *ssa.Lookup:
@@ -174,6 +188,73 @@ func (c *Ctx) checkModeTables() {
 			tb = tb.Succs[0]
 		}
 	}
+	// the letter arms moved into a helper that maps one character to its bit
+	// (`bit, ok := acsLetterBit(chr)` with `case 'J', 'j': return ModeJoin, true`): its result per letter
+	if len(l2b) < 16 {
+		core.AllInstrs(parse, func(in ssa.Instruction) {
+			call, ok := in.(*ssa.Call)
+			if !ok {
+				return
+			}
+			h := call.Call.StaticCallee()
+			if h == nil || h == parse || !core.InModule(h) || len(h.Blocks) == 0 || h.Signature.Results().Len() < 1 || !isModeType(h.Signature.Results().At(0).Type()) {
+				return
+			}
+			// its result is or-ed into the accumulator
+			used := false
+			if call.Referrers() != nil {
+				for _, ref := range *call.Referrers() {
+					if ex, isEx := ref.(*ssa.Extract); isEx && ex.Index == 0 && ex.Referrers() != nil {
+						for _, r2 := range *ex.Referrers() {
+							if bo, isBo := r2.(*ssa.BinOp); isBo && bo.Op == token.OR {
+								used = true
+							}
+						}
+					}
+				}
+			}
+			if !used {
+				return
+			}
+			for _, b := range h.Blocks {
+				ifi, ok := b.Instrs[len(b.Instrs)-1].(*ssa.If)
+				if !ok {
+					continue
+				}
+				a := core.NormCond(ifi.Cond)
+				if a.Op != token.EQL {
+					continue
+				}
+				var k int64
+				var okk bool
+				if k, okk = core.ConstIntValue(a.Y); !okk {
+					if k, okk = core.ConstIntValue(a.X); !okk {
+						continue
+					}
+				}
+				if k < 'A' || k > 'z' {
+					continue
+				}
+				idx := 0
+				if a.Negated {
+					idx = 1
+				}
+				tb := b.Succs[idx]
+				for hops := 0; hops < 2 && tb != nil; hops++ {
+					if ret, isRet := tb.Instrs[len(tb.Instrs)-1].(*ssa.Return); isRet {
+						if bit, ok := core.ConstIntValue(ret.Results[0]); ok && bit != 0 {
+							l2b[rune(k)] = bit
+						}
+						break
+					}
+					if len(tb.Succs) != 1 {
+						break
+					}
+					tb = tb.Succs[0]
+				}
+			}
+		})
+	}
 	r.Floor("C05.1-mode-tables-agree", 3)
 	var bad []string
 	for bit, L := range b2l {
@@ -187,7 +268,11 @@ func (c *Ctx) checkModeTables() {
 	}
 	for L, bit := range l2b {
 		if b2l[bit] != unicode.ToUpper(L) {
-			bad = append(bad, fmt.Sprintf("'%c' parses to bit %#x which renders as '%c'", L, bit, b2l[bit]))
+			shown := "nothing"
+			if b2l[bit] != 0 {
+				shown = fmt.Sprintf("'%c'", b2l[bit])
+			}
+			bad = append(bad, fmt.Sprintf("'%c' parses to bit %#x which renders as %s", L, bit, shown))
 		}
 	}
 	sort.Strings(bad)
